@@ -82,7 +82,11 @@ func c31ForFrame(vw *c13View, fr *c13Frame) *c31Ctx {
 	for v, d := range x.defs {
 		if call, ok := ast.Unparen(d).(*ast.CallExpr); ok && vw.calleeOf(fr, call) != nil {
 			delete(x.defs, v)
-			x.roles[v] = "p"
+			// an index found by a helper is the piece index; a dot fetched by a helper (`left := f.first()`)
+			// is a value of the state with the name "dot[<index>]"
+			if b, isB := v.Type().Underlying().(*types.Basic); isB && b.Info()&types.IsInteger != 0 {
+				x.roles[v] = "p"
+			}
 		}
 	}
 	fr.aux = x
@@ -287,7 +291,87 @@ func (x *c31Ctx) callee(call *ast.CallExpr) string {
 }
 
 // lin brings an integer expression to its linear form over role names.
-func (x *c31Ctx) lin(e ast.Expr) *core.Lin { return core.Linearize(x.f.Info(), x.subst(e), x.name) }
+func (x *c31Ctx) lin(e ast.Expr) *core.Lin {
+	return c31Expand(core.Linearize(x.f.Info(), x.subst(e), x.name))
+}
+
+// c31Lins remembers the linear form behind every canonical string the valuer of a view has produced, so a
+// local that holds such a value in the state (`end, found := search(x)`, then `p = end - 1`) can be
+// replaced by the form itself; c31Held marks the atom that stands for a held value inside a Linearize run.
+var c31Lins = map[string]*core.Lin{}
+
+const c31Held = "@held:"
+
+// c31Expand replaces the atoms that stand for held values by their linear forms.
+func c31Expand(l *core.Lin) *core.Lin {
+	held := false
+	for k := range l.Coef {
+		held = held || strings.HasPrefix(k, c31Held)
+	}
+	if !held {
+		return l
+	}
+	out := &core.Lin{Coef: map[string]*big.Int{}, Atom: map[string]ast.Expr{}, C: new(big.Int).Set(l.C)}
+	add := func(k string, e ast.Expr, c *big.Int) {
+		if cur, ok := out.Coef[k]; ok {
+			cur.Add(cur, c)
+			if cur.Sign() == 0 {
+				delete(out.Coef, k)
+				delete(out.Atom, k)
+			}
+			return
+		}
+		if c.Sign() != 0 {
+			out.Coef[k], out.Atom[k] = new(big.Int).Set(c), e
+		}
+	}
+	for k, c := range l.Coef {
+		v := c31Lins[strings.TrimPrefix(k, c31Held)]
+		if !strings.HasPrefix(k, c31Held) || v == nil {
+			add(k, l.Atom[k], c)
+			continue
+		}
+		for k2, c2 := range v.Coef {
+			add(k2, v.Atom[k2], new(big.Int).Mul(c, c2))
+		}
+		out.C.Add(out.C, new(big.Int).Mul(c, v.C))
+	}
+	return out
+}
+
+// c31Value is the valuer of the views of C31: an integer has the canonical string of its linear form (kept
+// in c31Lins), a dot of the list the name "dot[<index form>]".
+func c31Value(fr *c13Frame, e ast.Expr) string {
+	x := c31CtxOf(fr)
+	if x == nil {
+		return ""
+	}
+	if tv, ok := x.f.Info().Types[e]; ok && tv.Type != nil {
+		if b, isB := tv.Type.Underlying().(*types.Basic); !isB || b.Info()&types.IsInteger == 0 {
+			if idx := x.dotIndex(x.subst(e)); idx != "" {
+				return "dot[" + idx + "]"
+			}
+		}
+	}
+	l := x.lin(e)
+	s := l.String()
+	c31Lins[s] = l
+	return s
+}
+
+// heldDot: the state of the view holds the identifier as a dot of the list; returns its index form.
+func (x *c31Ctx) heldDot(id *ast.Ident) string {
+	if x.vw == nil {
+		return ""
+	}
+	if o, ok := x.origOf(id).(*ast.Ident); ok {
+		id = o
+	}
+	if s := x.vw.stateName(x.fr, id); strings.HasPrefix(s, "dot[") && strings.HasSuffix(s, "]") {
+		return s[len("dot[") : len(s)-1]
+	}
+	return ""
+}
 
 // canon is the canonical string of an integer expression.
 func (x *c31Ctx) canon(e ast.Expr) string { return x.lin(e).String() }
@@ -337,6 +421,10 @@ func (x *c31Ctx) dotIndex(e ast.Expr) string {
 				x.iterVar(v)
 				return x.elem[v]
 			}
+			// a local that holds a dot fetched by a spliced helper
+			if idx := x.heldDot(n); idx != "" {
+				return idx
+			}
 			// a parameter bound to a dot of the calling frame
 			if x.up != nil {
 				if arg, ok := x.fr.bind[v]; ok {
@@ -358,6 +446,12 @@ func (x *c31Ctx) name(e ast.Expr) string {
 			if r := x.roles[v]; r != "" {
 				x.iterVar(v)
 				return r
+			}
+			// a local without a role whose integer value the state of the view holds stands for that value
+			if x.vw != nil {
+				if s := x.vw.stateName(x.fr, n); s != "" && c31Lins[s] != nil {
+					return c31Held + s
+				}
 			}
 			if x.up != nil {
 				if arg, ok := x.fr.bind[v]; ok {
@@ -591,6 +685,7 @@ func c31NewFuncClause(c *core.Ctx, maxPlus1 string) {
 		return env
 	}
 	vw := c13NewView(f, c31Inline(f), mkEnv)
+	vw.tuples = true // the validation may live in a helper that returns (message, invalid) while the caller panics
 	vw.build()
 	rx := c31CtxOf(vw.root)
 	// the returned closure
@@ -797,8 +892,9 @@ func c31GetClause(c *core.Ctx, decStr string) {
 		return env
 	}
 	vw := c13NewView(f, c31Inline(f), mkEnv)
-	vw.valuer = func(fr *c13Frame, e ast.Expr) string { return c31CtxOf(fr).canon(e) }
+	vw.valuer = c31Value
 	vw.track = func(fr *c13Frame, v *types.Var) bool { return c31CtxOf(fr).piece[v] }
+	vw.tuples = true // a search helper may return (index, found) instead of a sentinel index
 	vw.build()
 	rx := c31CtxOf(vw.root)
 	entry := []*c13Node{vw.entry}
@@ -915,8 +1011,13 @@ func c31GetClause(c *core.Ctx, decStr string) {
 				vals = append(vals, v.origin)
 			}
 		}
-		for _, v := range n.outcome.st.calls {
-			if v.kind == c13VExpr {
+		for cl, v := range n.outcome.st.calls {
+			// a helper result used by the return statement: a piece index, unless the call computes the
+			// returned value itself (the interpolation moved into a helper) or fetches a dot
+			if len(n.outcome.stmt.Results) == 1 && ast.Unparen(n.outcome.stmt.Results[0]) == ast.Expr(cl) {
+				continue
+			}
+			if v.kind == c13VExpr && !strings.HasPrefix(v.origin, "dot[") {
 				vals = append(vals, v.origin)
 			}
 		}
